@@ -901,6 +901,18 @@ def gen_C10(rng, tier):
         pr.emit("E.SetWideBytes", v, b)
     pr.tag("edge values / lengths")
     cases.append(pr)
+    # structured 64-byte inputs: a half that is all zero / all ones, integers around p, 2^255, 2^256 and their multiples,
+    # zero-extended 32-byte values with bit 255 set (2^255 counts as 19 in the wide decoding, it is ignored in the narrow one)
+    pr = Prog(rng)
+    v = pr.elem(0)
+    wides = [0, 1, P - 1, P, P + 1, 2**255 - 1, 2**255, 2**255 + 1, 2**255 + rng.randrange(2**200), 2**256 - 1, 2**256, 2**256 + 37, 2**512 - 1,
+             (2**256 - 1) << 256, (2**255) << 256, rng.randrange(2**255, 2**256), rng.randrange(2**256) << 256, 38 * (2**256) - 1, P * (2**256 // 3)]
+    for n in wides:
+        pr.emit("E.SetWideBytes", v, pr.bytes_((n % 2**512).to_bytes(64, "little")))
+        pr.emit("E.Bytes", v, pr.fresh("o"))
+        pr.emit("E.IsNegative", v)
+    pr.tag("structured wide inputs")
+    cases.append(pr)
     for _ in range(scale(tier, 10, 150)):
         pr = Prog(rng)
         v = pr.elem(0)
